@@ -273,9 +273,9 @@ template <size_t I, typename T1, typename T2>
 [[nodiscard]] constexpr auto get(pair<T1, T2>&& p) noexcept -> tuple_element_t<I, pair<T1, T2>>&&
 {
     if constexpr (I == 0) {
-        return etl::move(p.first);
+        return etl::forward<T1&&>(p.first);
     } else {
-        return etl::move(p.second);
+        return etl::forward<T2&&>(p.second);
     }
 }
 
@@ -288,9 +288,9 @@ template <size_t I, typename T1, typename T2>
 [[nodiscard]] constexpr auto get(pair<T1, T2> const&& p) noexcept -> tuple_element_t<I, pair<T1, T2>> const&&
 {
     if constexpr (I == 0) {
-        return etl::move(p.first);
+        return etl::forward<T1 const&&>(p.first);
     } else {
-        return etl::move(p.second);
+        return etl::forward<T2 const&&>(p.second);
     }
 }
 
